@@ -778,10 +778,12 @@ class MultiStream(Stream):
                 other_phase_index = self.imol.get_phase_index(other.phase)
                 data[other_phase_index, :] = other_data
                 data[phase_index, IDs_index] = original_data[phase_index, IDs_index]
-                if remove and (phase is ... or phase_index == other_phase_index):
-                    excluded_data = other_data[IDs_index]
+                if remove:
+                    excluded_data = 0. # Nothing of `other` is in an excluded phase it does not have
+                    if phase is ... or phase_index == other_phase_index:
+                        excluded_data = other_data[IDs_index]
                     other_data[:] = 0.
-                    other_data[IDs_index] = excluded_data   
+                    other_data[IDs_index] = excluded_data
         elif multiphase:
             data[phase_index, IDs_index] = other_data[phase_index, IDs_index]
             if remove: other_data[phase_index, IDs_index] = 0.
